@@ -23,7 +23,7 @@ OUT_OF_REACH = [
 
 
 def declare(w):
-    w.cls('g', fields={'tokens': IntS, 'lock_releases': IntS, 'lock_acquires': IntS, 'cond_waits': IntS, 'notified_all': IntS})
+    w.cls('g', fields={'released_any': BoolS, 'tokens': IntS, 'lock_releases': IntS, 'lock_acquires': IntS, 'cond_waits': IntS, 'notified_all': IntS})
     w.cls('Sem', fields={'count': IntS})
     w.cls('SemLockL', fields={'mine': BoolS, 'depth': IntS})
     w.cls('LockL', fields={'_semlock': ref('SemLockL')})
@@ -64,7 +64,8 @@ def build(w):
         '_is_mine': lambda ex, a, k: ex.path.read_field(a[0], 'mine'),
         '_count': lambda ex, a, k: ex.path.read_field(a[0], 'depth')})
     w.classes['LockL'].methods.update({
-        'release': lambda ex, a, k: (gset(ex, 'lock_releases', SV(IntS, gget(ex, 'lock_releases').e + 1)), SNone())[1],
+        'release': lambda ex, a, k: (gset(ex, 'lock_releases', SV(IntS, gget(ex, 'lock_releases').e + 1)),
+                                     gset(ex, 'released_any', mk_bool(True)), SNone())[2],
         'acquire': lambda ex, a, k: (gset(ex, 'lock_acquires', SV(IntS, gget(ex, 'lock_acquires').e + 1)), mk_bool(True))[1]})
     w.classes['ECond'].methods.update({
         'with_enter': lambda ex, a, k: (ex.path.write_field(a[0], 'held', mk_bool(True)), SNone())[1],
@@ -82,7 +83,15 @@ def build(w):
     waiting = '(old(%s) - old(%s))' % (S, Wk)
     cmod = ['Sem.count', 'g.tokens', 'g.lock_releases', 'g.lock_acquires']
     # waking a sleeper = releasing one unit of the wait semaphore
+    def announced_under_the_lock(ex, sem):
+        # a notifier needs the condition's lock to look at the sleeper count: a waiter that gives the lock up before it
+        # has announced itself can be overlooked (lost wake-up) -- the announcement is guarded by the lock
+        me = ex.root.scopes[0]['self']
+        if me.shape.cls == 'Cond' and ex.root.qualname.endswith('Condition.wait') and \
+                ex.path.decide(sem.id == ex.path.read_field(me, '_sleeping_count').id):
+            prove(ex, 'guarded.sleeper_announced_before_the_condition_lock_is_given_up', z3.Not(gget(ex, 'released_any').e))
     w.classes['Sem'].methods['release'] = lambda ex, a, k: (
+        announced_under_the_lock(ex, a[0]),
         sem_release(ex, a, k),
         gset(ex, 'tokens', SV(IntS, gget(ex, 'tokens').e + z3.If(
             a[0].id == ex.path.read_field(ex.root.scopes[0]['self'], '_wait_semaphore').id, 1, 0)))
@@ -90,9 +99,10 @@ def build(w):
 
     wait = Contract(
         'synchronize.Condition.wait', prop=PROP, params={'self': ref('Cond'), 'timeout': opt(RealS)},
-        requires={'wf': cwf, 'lock_depth': 'self._lock._semlock.depth >= 1'},
-        modifies=cmod, returns=BoolS,
-        loops={0: {'inv': {'released_so_far': 'g.lock_releases == old(g.lock_releases) + _i'}, 'modifies': ['g.lock_releases']},
+        requires={'wf': cwf, 'lock_depth': 'self._lock._semlock.depth >= 1', 'fresh': 'not g.released_any'},
+        modifies=cmod + ['g.released_any'], returns=BoolS,
+        loops={0: {'inv': {'released_so_far': 'g.lock_releases == old(g.lock_releases) + _i'},
+                   'modifies': ['g.lock_releases', 'g.released_any']},
                1: {'inv': {'reacquired_so_far': 'g.lock_acquires == old(g.lock_acquires) + _i'}, 'modifies': ['g.lock_acquires']}},
         ensures={
             'announces_itself_once_and_acknowledges_once': '%s == old(%s) + 1 and %s == old(%s) + 1' % (S, S, Wk, Wk),
